@@ -15,7 +15,7 @@ import (
 	"strings"
 )
 
-func filterCalls(names []string, watch ...string) []string {
+func gcFilterCalls(names []string, watch ...string) []string {
 	var out []string
 	for _, n := range names {
 		short := n
@@ -42,7 +42,7 @@ func init() {
 		if gc == nil {
 			return fmt.Errorf("DoltDB.GC not found")
 		}
-		c.defStringList("doltdbGcCalls", filterCalls(callNames(gc.Body), "pruneUnreferencedDatasets", "Datasets", "IterAll", "Insert", "GC"))
+		c.defStringList("doltdbGcCalls", gcFilterCalls(callNames(gc.Body), "pruneUnreferencedDatasets", "Datasets", "IterAll", "Insert", "GC"))
 		// ref types classified as old generation
 		var oldTypes []string
 		src := c.src(ddRel, gc)
@@ -100,16 +100,16 @@ func init() {
 		if gen == nil {
 			return fmt.Errorf("ValueStore.GC: generational branch not found")
 		}
-		pre := filterCalls(callNames(&ast.BlockStmt{List: vgc.Body.List[:3]}), "transitionToOldGenGC", "transitionToNoGC")
+		pre := gcFilterCalls(callNames(&ast.BlockStmt{List: vgc.Body.List[:3]}), "transitionToOldGenGC", "transitionToNoGC")
 		watch := []string{"BeginGC", "EndGC", "Root", "Insert", "gc", "transitionToNewGenGC", "InsertAll", "AddChunksToStore", "SwapChunksInStore", "CancelSafepoint"}
 		c.defStringList("valueStoreGcPrologue", pre)
-		c.defStringList("valueStoreGcPhases", filterCalls(callNames(gen.Body), watch...))
+		c.defStringList("valueStoreGcPhases", gcFilterCalls(callNames(gen.Body), watch...))
 		c.defBool("newGenGcFinalizesWithTransitionToFinalizing", strings.Contains(c.src(vsRel, gen.Body), "safepoint, lvs.transitionToFinalizingGC, false)"))
 		inner := findFunc(vs, "ValueStore", "gc")
 		if inner == nil {
 			return fmt.Errorf("ValueStore.gc not found")
 		}
-		c.defStringList("sweepOrder", filterCalls(callNames(inner.Body), "MarkAndSweepChunks", "SaveHashes", "EstablishPreFinalizeSafepoint",
+		c.defStringList("sweepOrder", gcFilterCalls(callNames(inner.Body), "MarkAndSweepChunks", "SaveHashes", "EstablishPreFinalizeSafepoint",
 			"readAndResetNewGenToVisit", "finalize", "EstablishPostFinalizeSafepoint", "Finalize"))
 		ac := findFunc(vs, "ValueStore", "gcAddChunk")
 		if ac == nil {
@@ -123,7 +123,7 @@ func init() {
 			return true
 		})
 		c.defStringList("keeperConditions", conds)
-		c.defStringList("keeperCalls", filterCalls(callNames(ac.Body), "Insert", "panic"))
+		c.defStringList("keeperCalls", gcFilterCalls(callNames(ac.Body), "Insert", "panic"))
 		return nil
 	})
 }
